@@ -485,6 +485,17 @@ def gen_cases(ctx, encs):
                 ups.append((gen_content(rng, rng.choice(KINDS), w, h, sbypp), pick_rect(rng, w, h),
                             ("%s %s -" % (rng.choice(["zlib", "zlib", "zrle"]), rng.choice(["0", "1", "5", "9", "-"]))) if j > 0 else None))
             add("zlib:levels", w, h, sbypp, None, "zlib", ups, (rng.choice(["1", "9", "-"]), "-"))
+    # 2g. Tight with LastRect on rectangles of >= 4096 pixels with large solid areas: the solid-area
+    #     search (FindBestSolidArea / ExtendSolidArea / recursion / nMaxRows flush) is compared exactly
+    if "tight" in encs:
+        for i in range(12 if quick else 200):
+            sbypp = rng.choice([1, 2, 4])
+            w, h = rng.choice([(128, 96), (200, 130), (100, 70), (64, 64), (90, 800), (300, 220), (2100, 40)] if not quick or i % 4 == 0
+                              else [(128, 96), (100, 70), (64, 64), (160, 50)])
+            kind = rng.choice(["rects2", "rects3", "rects8", "tilemix64", "tilemix16", "flat", "sparse", "stripes", "hgrad"])
+            fm = rng.choice([None, Fmt(32, 24, 0, 1, 255, 255, 255, 16, 8, 0), Fmt(16, 16, 0, 1, 31, 63, 31, 11, 5, 0)])
+            add("tight:lastrect:%s" % kind, w, h, sbypp, fm, "tight", [(gen_content(rng, kind, w, h, sbypp), pick_rect(rng, w, h))],
+                (rng.choice(["-", "1", "9"]), rng.choice(["-", "-", "5"]), "lastrect"))
     # 2c. TightPng (SAMPLED: PNG container decoded by libpng in the harness, exact comparison)
     for i in range(6 if quick else 60):
         w, h = rng.choice(SIZES_SMALL)
@@ -533,6 +544,19 @@ def parse_upd(line):
         else:
             d["rects"].append(bytes.fromhex(t))
     return d
+
+
+def norm_jpeg(line):
+    """a Tight JPEG rectangle is lossy by request: only header + control byte take part in the exact
+    comparison (the model emits exactly that)"""
+    if not line.startswith("upd n="):
+        return line
+    out = []
+    for t in line.split(" "):
+        if len(t) >= 26 and t[16:24] == "00000007" and t[24] == "9":
+            t = t[:26]
+        out.append(t)
+    return " ".join(out)
 
 
 def rect_hdr(b):
@@ -702,6 +726,19 @@ def build_model():
     return vlib.build_ocaml("C01", "driver_C01.ml", EXTRACT)
 
 
+def outputs_differ(co, mo):
+    """exact comparison of two driver outputs modulo what the model does not predict: JPEG image bytes
+    (only header + control byte are compared) and updates answered with model-error"""
+    a, b = vlib.split_cases(co), vlib.split_cases(mo)
+    if len(a) != len(b):
+        return True
+    for (ha, la), (hb, lb) in zip(a, b):
+        keep = [k for k in range(max(len(la), len(lb))) if not (k < len(lb) and lb[k] == "upd model-error")]
+        if vlib.first_diff([norm_jpeg(la[k]) for k in keep if k < len(la)], [norm_jpeg(lb[k]) for k in keep if k < len(lb)]) is not None:
+            return True
+    return False
+
+
 def run_both(cases, cexe, mexe):
     script = "\n".join("\n".join(c[0]) for c in cases) + "\n"
     r1 = vlib.run_driver(cexe, script, timeout=3000)
@@ -792,7 +829,7 @@ def check(ctx):
             if "tight" in meta.get("encs", [meta["enc"]]):
                 # the LastRect solid-area search of Tight is not modelled: the model answers model-error
                 keep = [k for k in range(max(len(il), len(ml))) if not (k < len(ml) and ml[k] == "upd model-error")]
-                d = vlib.first_diff([il[k] for k in keep if k < len(il)], [ml[k] for k in keep if k < len(ml)])
+                d = vlib.first_diff([norm_jpeg(il[k]) for k in keep if k < len(il)], [norm_jpeg(ml[k]) for k in keep if k < len(ml)])
             else:
                 d = vlib.first_diff(il, ml)
             if d is not None:
@@ -880,7 +917,7 @@ def check(ctx):
         idx, d = mismatches[0]
         def fails2(c):
             (r1, co, _), (r2, mo, _) = run_both([c], cexe, mexe)
-            return co != mo
+            return outputs_differ(co, mo)
         small = shrink_case(cases[idx], fails2)
         (r1, co, ce), (r2, mo, me) = run_both([small], cexe, mexe)
         ctx.violation("correspondence Enc/*.v <-> server encoders no longer holds (%d cases differ, first: %s); every "
@@ -1002,7 +1039,7 @@ def replay(ctx, path):
         feats["mirror_agrees"] = (meta["enc"] in MODELLED and m[1] == r[1])
         ctx.violation("lossless encoding does not reproduce the framebuffer: " + e, feats,
                       "script:\n" + "\n".join(lines) + "\n\nimplementation output:\n" + r[1][:20000])
-    elif meta["enc"] in MODELLED and r[1] != m[1]:
+    elif meta["enc"] in MODELLED and outputs_differ(r[1], m[1]):
         ctx.violation("correspondence differs on the replayed script", {"kind": "correspondence"},
                       "script:\n" + "\n".join(lines) + "\n\n" + r[1][:20000] + "\n" + m[1][:20000], no_input=True)
 
